@@ -41,6 +41,7 @@ def write_crate(name, main_rs, with_verif=True):
     d = os.path.join(GEN, name)
     os.makedirs(os.path.join(d, "src"), exist_ok=True)
     deps = 'mina = { path = "/repo" }\nenum-map = "2.5.0"\n'
+    deps += 'marker_derive = { path = "%s" }\n' % os.path.join(VERIF, "gen", "marker_derive")
     if with_verif:
         deps += 'mina_verif = { path = "%s" }\n' % os.path.join(VERIF, "harness")
     toml = f"""[package]
@@ -625,9 +626,14 @@ TYPES = [("f32", "F32"), ("f64", "F64"), ("u8", "U8"), ("i16", "I16"), ("i32", "
 def gen_shape(rnd, i):
     nf = rnd.randint(1, 6)
     fields = []
+    # one shape in three also derives a second (do-nothing) derive whose helper attribute `#[tagged]` is a bare
+    # single-segment path like `#[animate]` itself
+    helper = rnd.random() < 0.34
     for j in range(nf):
         ty, kind = rnd.choice(TYPES)
         extra = ["/// A documented field.", "#[allow(dead_code)]", "#[doc(hidden)]", "#[doc = \"named-value attribute\"]", "#[cfg_attr(any(), deprecated)]"]
+        if helper:
+            extra += ["#[tagged]", "#[tagged]", "#[tagged]"]
         pre = [rnd.choice(extra) for _ in range(rnd.choice([0, 0, 1, 1, 2]))]
         post = [rnd.choice(extra) for _ in range(rnd.choice([0, 0, 0, 1]))]
         fields.append({"name": f"f{j}", "ty": ty, "kind": kind, "vis": rnd.choice(["", "pub ", "pub(crate) "]), "pre": pre, "post": post})
@@ -643,7 +649,7 @@ def gen_shape(rnd, i):
     animated = [True] * nf if not any(marks) else marks
     remote = rnd.random() < 0.35
     svis = rnd.choice(["", "pub ", "pub(crate) "])
-    return {"i": i, "fields": fields, "marks": marks, "animated": animated, "remote": remote, "svis": svis, "mode": mode}
+    return {"i": i, "fields": fields, "marks": marks, "animated": animated, "remote": remote, "svis": svis, "mode": mode, "helper": helper}
 
 
 def shape_source(sh, with_impl=True):
@@ -666,10 +672,12 @@ def shape_source(sh, with_impl=True):
         out.append(f"    pub mod ext {{ #[derive(Clone, Debug, Default, PartialEq)] {evis}struct {T} {{ {pubfields} }} }}")
         out.append(f"    use ext::{T};")
         rpath = f"ext::{T}" if sh["i"] % 2 == 0 else T
-        out.append(f"    #[derive(Animate)]\n    #[animate(remote = \"{rpath}\")]\n    {sh['svis']}struct {T}Proxy {{ {', '.join(fl)} }}")
+        hd = ", marker_derive::Marker" if sh.get("helper") else ""
+        out.append(f"    #[derive(Animate{hd})]\n    #[animate(remote = \"{rpath}\")]\n    {sh['svis']}struct {T}Proxy {{ {', '.join(fl)} }}")
         target, animty = f"ext::{T}", f"{T}Proxy"
     else:
-        out.append(f"    #[derive(Animate, Clone, Debug, Default, PartialEq)]\n    {sh['svis']}struct {T} {{ {', '.join(fl)} }}")
+        hd = ", marker_derive::Marker" if sh.get("helper") else ""
+        out.append(f"    #[derive(Animate{hd}, Clone, Debug, Default, PartialEq)]\n    {sh['svis']}struct {T} {{ {', '.join(fl)} }}")
         target, animty = T, T
     if with_impl:
         out.append(f"    mina_verif::shape_impl!({target}, {animty}, {T}Timeline, [{al}], [{pl}]);")
